@@ -17,7 +17,7 @@ pub fn lang(input: TokenStream) -> TokenStream {
     let lang = if let Some(lang) = lang {
         quote!(unsafe { $crate::subtags::Language::from_raw_unchecked(#lang) })
     } else {
-        quote!(None)
+        quote!($crate::subtags::Language::default())
     };
 
     TokenStream::from(quote! {
